@@ -88,6 +88,10 @@ func (d *DBFT[H]) checkPreCommit() {
 			return
 		}
 		d.preBlockProcessed = true
+		// The header can be constructed since now, so check Commits received
+		// before that. It has to be done irrespective of whether this node
+		// sends its own Commit, they are counted by checkCommit anyway.
+		d.verifyCommitPayloadsAgainstHeader()
 	}
 
 	// Require PreCommit sent by self for reliability. This condition must not be
@@ -96,7 +100,6 @@ func (d *DBFT[H]) checkPreCommit() {
 	// 2) CNs that have not sent PreCommit must not skip this stage (although it's OK
 	//    from the DKG/TPKE side to build final Block based only on other CN's data).
 	if d.PreCommitSent() {
-		d.verifyCommitPayloadsAgainstHeader()
 		d.sendCommit()
 		d.changeTimer(d.timePerBlock)
 		d.checkCommit()
